@@ -1,10 +1,13 @@
 import BR.Lemmas.LruOrder
 import BR.Bridge.Lru
+import BR.Lemmas.DiskProxy
 /-!
 # C17 — max_size_hard_limit refuses overload with a retryable error; reads continue
 
 Model M1: `Reserve` is the single admission point of every upload and backend fetch
-(disk.go `Put` / `availableOrTryProxy`); `qsize` is `queuedEvictionsSize`, the bytes of files removed
+(disk.go `Put` / `availableOrTryProxy`, and — for a fetch whose size the request did not state — the
+reservation `get` makes once the back end has announced the size: `unknown_size_fetch_refused`,
+`unknown_size_fetch_hit_was_admitted` on model M4); `qsize` is `queuedEvictionsSize`, the bytes of files removed
 from the index but not yet unlinked by the background remover (`drainOne` = one unlink).
 The mapping 507 → RESOURCE_EXHAUSTED is a regenerated fact (`BR.Gen`, `gRPCErrCode`).
 -/
@@ -59,6 +62,50 @@ theorem reads_ignore_limit (l : Lru) (k : String) (hl q : Int) :
     (Lru.get { l with hardLimit := hl, qsize := q } k).2 = (Lru.get l k).2 := by
   unfold Lru.get find?; split <;> rename_i heq <;> simp only at heq <;> rw [heq]
 
+/-- **a back-end fetch of unknown size goes through the same admission**: when the request did not
+state the size (HTTP GET, every action-cache fetch) the size announced by the back end is reserved
+before anything is written; if that reservation is refused (507 for the hard limit or for space held
+by other requests) the read fails with that code and the cache state is unchanged — nothing stored,
+nothing evicted.  (Finding F27: this reservation did not exist.) -/
+theorem unknown_size_fetch_refused (C : BR.CasBlob.Codec) (d : BR.Disk.Disk) {l : Lru} (hl : Inv l) (kind : BR.Disk.Kind) (hash : String)
+    (size offset : Int) (zstd : Bool) (s : BR.CasBlob.Stream) (fs : Int) (rnd : String) (e : Err)
+    (hsz : size ≤ 0) (hfs : 0 < fs) (hmax : fs ≤ d.cfg.maxProxyBlobSize) (hmm : BR.Disk.isSizeMismatch size fs = false)
+    (href : (reserve l fs).2 = some e) :
+    BR.Disk.fetchFromProxy C d l kind hash size offset zstd (.found s fs) rnd =
+      ({ d with lru := l }, .err (BR.Disk.codeOfErr e)) := by
+  have hun := reserve_err_unchanged hl fs e href
+  unfold BR.Disk.fetchFromProxy
+  have hc : size ≤ 0 ∧ fs > 0 ∧ fs ≤ d.cfg.maxProxyBlobSize ∧ BR.Disk.isSizeMismatch size fs = false := ⟨hsz, hfs, hmax, hmm⟩
+  simp only [hc, and_self, if_true]
+  cases hr : reserve l fs with
+  | mk lr rerr =>
+    rw [hr] at href hun
+    simp only at href hun
+    subst href
+    subst hun
+    rfl
+
+/-- conversely, a hit served from the back end for a request of unknown size was admitted by
+`Reserve` for exactly the announced size -/
+theorem unknown_size_fetch_hit_was_admitted (C : BR.CasBlob.Codec) (d : BR.Disk.Disk) (l : Lru) (kind : BR.Disk.Kind) (hash : String)
+    (size offset : Int) (zstd : Bool) (pg : BR.Disk.ProxyGet) (rnd : String) (hit : BR.Disk.Hit) (hsz : size ≤ 0)
+    (hh : (BR.Disk.fetchFromProxy C d l kind hash size offset zstd pg rnd).2 = .hit hit) :
+    hit.size = 0 ∨ (reserve l hit.size).2 = none := by
+  obtain ⟨s, fs, hpg, _, h0, hmax, hmm, hsize, _, _⟩ := BR.Disk.fetch_hit_only_if C d l kind hash size offset zstd pg rnd hit hh
+  by_cases hz : fs = 0
+  · left; omega
+  · right
+    subst hpg
+    unfold BR.Disk.fetchFromProxy at hh
+    have hc : size ≤ 0 ∧ fs > 0 ∧ fs ≤ d.cfg.maxProxyBlobSize ∧ BR.Disk.isSizeMismatch size fs = false := ⟨hsz, by omega, hmax, hmm⟩
+    simp only [hc, and_self, if_true] at hh
+    cases hr : reserve l fs with
+    | mk lr rerr =>
+      rw [hr] at hh
+      cases rerr with
+      | some e => simp at hh
+      | none => rw [hsize, hr]
+
 /-! non-vacuity: a state in which the refusal happens, and the same request admitted after draining -/
 def busy : Lru := run (init 16384 24576) [.add "cas/a" ⟨1, 8192, "r", false⟩, .add "cas/b" ⟨1, 8192, "r", false⟩,
   .add "cas/c" ⟨1, 8192, "r", false⟩]
@@ -68,6 +115,8 @@ example : (reserve busy 8192).2 = some .insufficientHard ∧ (reserve busy 8192)
 
 #print axioms hard_limit_refuses_iff
 #print axioms refusal_state_unchanged
+#print axioms unknown_size_fetch_refused
+#print axioms unknown_size_fetch_hit_was_admitted
 #print axioms retry_after_drain
 #print axioms drain_keeps_index
 #print axioms disabled_never_refuses
